@@ -52,6 +52,9 @@ def one(kind, name, checks, edits):
         env = dict(os.environ, VERIF_REPO=S + "/repo", VERIF_EVIDENCE_DIR=S + "/ev")
         fired = []
         detail = {}
+        only = [c for c in os.environ.get("VERIF_ONLY", "").split(",") if c]
+        if only:
+            checks = [c for c in checks if c in only]
         for c in checks:
             p = subprocess.run(["/verif/check", c, "quick"], env=env, stdout=subprocess.PIPE, stderr=subprocess.STDOUT, text=True)
             if p.returncode != 0:
